@@ -45,7 +45,7 @@ where CL03<CS>: Scheme<PubKey = CL03PublicKey, PrivKey = CL03SecretKey>, CS::Has
     let worlds: Vec<World<CS>> = { let v = std::sync::Mutex::new(Vec::new()); par_for(&[0, 1], |_, _| { let w = World::<CS>::generate(maxn); v.lock().unwrap().push(w); }); v.into_inner().unwrap() };
     let (w, other) = (&worlds[0], &worlds[1]);
     #[derive(Clone)]
-    enum Kind { Flow, Leaf(usize, usize) } // Leaf(chunk, nchunks)
+    enum Kind { Flow, Leaf(usize, usize), SignFlip } // Leaf(chunk, nchunks)
     struct Root { id: String, n: usize, u: Vec<usize>, trusted: bool, kind: Kind }
     let mut roots = Vec::new();
     for n in 1..=maxn { for u in subsets(n) { if u.is_empty() { continue; } for trusted in [false, true] {
@@ -58,7 +58,8 @@ where CL03<CS>: Scheme<PubKey = CL03PublicKey, PrivKey = CL03SecretKey>, CS::Has
     classes.push((2, vec![1], true));
     if !env.thorough() { classes.retain(|c| c.0 <= 2 || c.1.len() == 1); }
     for (n, u, t) in classes { let nch = 8; for ch in 0..nch { roots.push(Root { id: format!("{}/leaf-edits/n{}/hidden{:?}/{}/chunk{}", CS::NAME, n, u, if t { "trusted" } else { "untrusted" }, ch), n, u: u.clone(), trusted: t, kind: Kind::Leaf(ch, nch) }); } }
-    env.ctx.set_rule("flows: n in 1..=3 (thorough 1..=5) attributes x ALL non-empty hidden-position subsets U x {no trusted party, trusted-party commitment over an own-modulus key}: commit_with_pk(U) -> generate_proof -> verify_proof = true -> blind_sign -> unblind_sign -> verify_multiattr(full vector) = true; per flow every mismatch: commitment to other attributes, EVERY other subset U' as claimed hidden set, other bases, other issuer key, other/missing trusted commitment => verify_proof = false and blind_sign returns no signature (its panic is the documented refusal); update_signature for every revealed position => valid on the updated vector only. Leaf edits: one proof per (n, |U|) class: EVERY integer leaf of the serialized ZKPoK +1 / -1 / zero / swapped with its sibling => issuer refuses. State = (flow, edit); non-trivial = the real issuer-side verifier ran.");
+    roots.push(Root { id: format!("{}/sign-flip/n2/hidden[1]/untrusted", CS::NAME), n: 2, u: vec![1], trusted: false, kind: Kind::SignFlip });
+    env.ctx.set_rule("flows: n in 1..=3 (thorough 1..=5) attributes x ALL non-empty hidden-position subsets U x {no trusted party, trusted-party commitment over an own-modulus key}: commit_with_pk(U) -> generate_proof -> verify_proof = true -> blind_sign -> unblind_sign -> verify_multiattr(full vector) = true; per flow every mismatch: commitment to other attributes, EVERY other subset U' as claimed hidden set, other bases, other issuer key, other/missing trusted commitment => verify_proof = false and blind_sign returns no signature (its panic is the documented refusal); update_signature for every revealed position => valid on the updated vector only. Leaf edits: one proof per (n, |U|) class: EVERY integer leaf of the serialized ZKPoK +1 / -1 / zero / +N / swapped with its sibling => issuer refuses; sign flips: every group-element leaf v := N - v, searched over a pool of 32 honest proofs => issuer refuses. State = (flow, edit); non-trivial = the real issuer-side verifier ran.");
     par_for(&roots, |_, r| {
         if !env.want(&r.id) || env.ctx.out_of_time() { return; }
         let n = r.n;
@@ -133,13 +134,21 @@ where CL03<CS>: Scheme<PubKey = CL03PublicKey, PrivKey = CL03SecretKey>, CS::Has
                 }
                 if n == 2 && r.u == vec![1] && !r.trusted { env.ctx.sample(json!({"root": r.id, "flow": "commit_with_pk -> generate_proof -> verify_proof -> blind_sign -> unblind_sign -> verify_multiattr; mismatches: other commitment, every other hidden set, other bases, other key, trusted part"})); }
             }
+            Kind::SignFlip => {
+                let k = if env.thorough() { 64 } else { 32 };
+                let flows: Vec<Flow<CS>> = { let v = std::sync::Mutex::new(Vec::new()); par_for(&(0..k).collect::<Vec<_>>(), |_, _| { if let O::Ok(x) = holder::<CS>(w, n, &m, &r.u, false) { v.lock().unwrap().push(x); } }); v.into_inner().unwrap() };
+                if flows.is_empty() { env.machinery("sign-flip pool empty"); return; }
+                let pool: Vec<Value> = flows.iter().map(|x| to_json(&x.zkpok)).collect();
+                let res = sign_flip_search(&pool, &w.pk.N, &|k, x| match from_json::<ZKPoK<CL03<CS>>>(x) { Some(z) => issuer_verifies::<CS>(&z, flows[k].c.cl03Commitment(), None, &w.pk, &bases, None, &r.u), None => O::Ok(false) });
+                report_sign_flips(env, &r.id, "issuance proof", &res, pool.len(), det0.clone());
+            }
             Kind::Leaf(ch, nch) => {
                 let j = to_json(&f.zkpok);
                 let leaves = int_leaf_paths(&j);
                 for (li, path) in leaves.iter().enumerate() {
                     if li % nch != *ch { continue; }
                     let cur = leaf_int(json_get(&j, path).unwrap()).unwrap();
-                    let mut edits: Vec<(String, Value)> = leaf_perturbations(&cur).into_iter().map(|(nm, v)| { let mut x = j.clone(); json_set(&mut x, path, int_leaf(&v)); (nm.to_string(), x) }).collect();
+                    let mut edits: Vec<(String, Value)> = leaf_perturbations_mod(&cur, &[("N", &w.pk.N), ("N'", &w.cpk_own.N)]).into_iter().map(|(nm, v)| { let mut x = j.clone(); json_set(&mut x, path, int_leaf(&v)); (nm, x) }).collect();
                     // sibling swap: with the next integer leaf under the same parent
                     if let Some(sib) = leaves.iter().skip(li + 1).find(|p| p.len() == path.len() && p[..p.len() - 1] == path[..path.len() - 1]) {
                         let other_v = json_get(&j, sib).unwrap().clone();
@@ -150,7 +159,7 @@ where CL03<CS>: Scheme<PubKey = CL03PublicKey, PrivKey = CL03SecretKey>, CS::Has
                         if !env.ctx.state(&[r.id.as_bytes(), name.as_bytes()]) { continue; }
                         let zk2: Option<ZKPoK<CL03<CS>>> = from_json(&x);
                         let got = match &zk2 { Some(z) => issuer_verifies::<CS>(z, f.c.cl03Commitment(), ct, &w.pk, &bases, cpk, &r.u), None => O::Ok(false) };
-                        expect_bool(env, &r.id, &format!("verify_proof after leaf edit {}", name), &got, false, true, &format!("leaf-edit:/{}", path_class(path)), json!({"base": det0, "leaf": path.join("/"), "edit": nm}));
+                        expect_bool(env, &r.id, &format!("verify_proof after leaf edit {}", name), &got, false, true, &format!("leaf-edit{}:/{}", if nm.contains('N') { ":other-representative" } else { "" }, path_class(path)), json!({"base": det0, "leaf": path.join("/"), "edit": nm}));
                         env.ctx.class(&format!("leaf:{}", match got { O::Ok(false) => "rejected", O::Ok(true) => "accepted", _ => "refused-by-panic" })); env.ctx.trace();
                     }
                 }
